@@ -130,6 +130,8 @@ def alphabet(cfg, seed, kind):
         return [None, (f[0], d[0]), (f[2], d[2])]
     if kind == "dir":  # 13 cells, directions half a circle apart included
         return [None] + [(x, y) for x in (f[0], f[2]) for y in tuple(d) + FAR_DIRS]
+    if kind == "unwrap":  # 13 cells, the same directions written in other 360-degree windows (unwrapped records, mixed conventions)
+        return [None] + [(x, y) for x in (f[0], f[2]) for y in (d[0], d[0] + 360.0, d[1] - 360.0, d[0] + 45.0 + 360.0, d[0] + 45.0 - 720.0, d[2] + 720.0)]
     raise ValueError(kind)
 
 
@@ -373,6 +375,7 @@ def hist_items(tier, seed, parts):
             specs.append(("P4T2_reduced5", 4, 2, "reduced", one_per_wind, None))
     if parts is None or "dir" in parts:
         specs.append(("P2T2_dir13", 2, 2, "dir", all_cfgs(menus=[0, 1, 2], winds=[10.0]), None))
+        specs.append(("P2T2_unwrap13", 2, 2, "unwrap", all_cfgs(menus=[0, 1, 2], winds=[10.0]), None))
     if parts is None or "wind" in parts:
         specs.append(("P2T3_reduced5_wind(5,20,10)", 2, 3, "reduced", all_cfgs(menus=[0, 3, 4], winds=[5.0]), [5.0, 20.0, 10.0]))
         specs.append(("P2T3_reduced5_wind(20,5,20)", 2, 3, "reduced", all_cfgs(menus=[0, 3, 4], winds=[20.0]), [20.0, 5.0, 20.0]))
@@ -803,7 +806,7 @@ def run(rep, tier, seed, parts=None):
     rep.rule = (
         "every history (P partitions x T steps) over a cell alphabet {empty} U {fp values placed at f0, f0+-0.6*dswell, between the "
         "sea and swell lower thresholds, beyond both} x {3 directions straddling 0/360}, complete product per (P,T,alphabet), x "
-        "wind {5,10,20} x 6 threshold/time-step parameter sets; a direction alphabet with half-circle differences; time-varying "
+        "wind {5,10,20} x 6 threshold/time-step parameter sets; a direction alphabet with half-circle differences and one whose labels lie in other 360-degree windows (d+-360, d+720); time-varying "
         "wind; layered BFS over (last row, canonical ids) states to T=6 with every transition executed by the real function; all "
         "ordered pairs of 81 histories as 2-site batches and whole spaces as many-site batches (numpy and dask) through "
         "track_partitions; ptm1_track on synthetic spectra. Non-trivial = some step has a non-empty partition whose previous "
